@@ -27,15 +27,16 @@ def agree (what plan height : String) (col : String) : String :=
   else predfail "C01_replicas_agree" s!"{what} plan={plan} height={height} values={col}"
 
 def handleHeight : Handler
-  | [plan, height, _n, app, txr, bb, eb] =>
-    allOk [agree "bbevents" plan height bb, agree "txresult" plan height txr,
-           agree "ebevents" plan height eb, agree "apphash" plan height app]
+  | [plan, height, _n, cause, app, bb, eb] =>
+    let tag := fun (w : String) => if cause == "-" then w else s!"{w} after={cause}"
+    allOk [agree (tag "bbevents") plan height bb, agree (tag "ebevents") plan height eb, agree (tag "apphash") plan height app]
   | _ => badInput "c01.height arity"
 
 def handleTx : Handler
-  | [plan, height, idx, kind, code, col, logs] =>
-    allOk [agree s!"tx-code-gas kind={kind} code={code} idx={idx}" plan height col,
-           agree s!"txlog kind={kind} code={code} idx={idx}" plan height logs]
+  | [plan, height, idx, kind, code, stage, col, evs, logs] =>
+    allOk [agree s!"tx-code-gas stage={stage} kind={kind} code={code} idx={idx}" plan height col,
+           agree s!"tx-events-data stage={stage} kind={kind} code={code} idx={idx}" plan height evs,
+           agree s!"txlog stage={stage} kind={kind} code={code} idx={idx}" plan height logs]
   | _ => badInput "c01.tx arity"
 
 def handleMapRange : Handler
